@@ -33,7 +33,7 @@ def machine_tokens(workdir, home):
 
 def gen_case(rng, i):
     mix = rng.random() < 0.35
-    spec_tokens = [USER, 'HOSTTOKEN', 'CWDTOKEN'] + GC.today_tokens() if mix else []
+    spec_tokens = [USER, 'HOSTTOKEN', 'CWDTOKEN', 'HOMETOKEN/.toolrc', 'HOMETOKEN'] + GC.today_tokens() if mix else []
     spec = GC.gen_command(rng, spec_tokens, i)
     flags = []
     it = rng.choice([1, 2, 2, 3])
@@ -54,7 +54,7 @@ def gen_case(rng, i):
     if script == 'OMIT':
         refmode = 'none'
     return {'spec': spec, 'flags': flags, 'iterations': it, 'script': script, 'refmode': refmode, 'decoys': rng.random() < 0.7,
-            'previous_generation': rng.random() < 0.2, 'flags_first': rng.random() < 0.5}
+            'previous_generation': rng.random() < 0.2, 'flags_first': rng.random() < 0.5, 'old_decoys': rng.random() < 0.6}
 
 
 def bare_run(workdir, env, mut=None, names=None):
@@ -90,7 +90,7 @@ def generate(ctx, case, tag='g'):
     toks = machine_tokens(workdir, home)
     # late-bind the host/cwd placeholders the generator could not know
     def fix(l):
-        return l.replace('HOSTTOKEN', toks['host']).replace('CWDTOKEN', workdir)
+        return l.replace('HOSTTOKEN', toks['host']).replace('CWDTOKEN', workdir).replace('HOMETOKEN', home)
     for k in ('stdout', 'stderr'):
         spec[k] = [fix(l) for l in spec[k]]
     for f in spec['files']:
@@ -104,6 +104,8 @@ def generate(ctx, case, tag='g'):
             os.makedirs(os.path.dirname(p), exist_ok=True)
             with open(p, 'wb') as f:
                 f.write(data)
+            if case.get('old_decoys', True):
+                os.utime(p, (1500000000, 1500000000))      # mtime in 2017, ctime now
     env = {'LOGNAME': USER, 'USER': USER, 'HOME': home, 'TDDA_FAIL_DIR': os.path.join(root, 'fail')}
     os.makedirs(env['TDDA_FAIL_DIR'])
     try:
